@@ -891,6 +891,7 @@ package parser
 
 //@ func (p *Parser) parseLeafBooleanExpression
 //@   include ParseFrame
+//@   ensures [C18:consume-strict] (result2 == nil && (old(p.curToken.Type) != token.EOF || NoNul(p.l.input))) ==> Left(p) < old(Left(p))
 // C02: '!operand' means unset / zero
 //@   exit [C02:not-flag] (result2 == nil && usedNotOperator && (result0.Type == token.FLAG || result0.Type == token.DEFEATED)) ==> (result0.Operator == token.EQ && result0.ComparisonValue == token.FALSE)
 //@   exit [C02:leaf-type] (result2 == nil && !isAutoVar) ==> (result0.Type == token.VAR || result0.Type == token.FLAG || result0.Type == token.DEFEATED)
